@@ -643,3 +643,89 @@ func reaches(from, to, stop *ssa.BasicBlock) bool {
 	}
 	return dfs(from)
 }
+
+// ---------------------------------------------------------------------------------------
+// U8p: bit-pattern operands are parsed over their whole unsigned range
+// ---------------------------------------------------------------------------------------
+
+func ruleU8p(c *Ctx) {
+	c.doc("U8p", "the interrupt vector of INT (CD ib) and the selector and offset of a far jump (EA cd cw) are bit patterns of 8, 16 and 32 bits: the text pass 1 hands over is parsed with a range that includes the whole unsigned range of that width — strconv.ParseUint of at least the width, or ParseInt of a larger width — otherwise INT 0x80 or a selector ≥ 0x8000 is refused and the statement, already counted by pass 1, is not emitted")
+	n := 0
+	for _, fn := range []string{"handleINT", "handleJcc"} {
+		f := c.L.SSAFunc("internal/codegen", fn)
+		if f == nil {
+			c.anchorMissing("U8p", "internal/codegen."+fn)
+			continue
+		}
+		paths, ok := enumPaths(f, 5000)
+		if !ok {
+			c.fail("U8p", fn+"|path enumeration", c.L.Pos(f.Pos()), "undecided: too many paths")
+			continue
+		}
+		done := map[string]bool{}
+		for i := range paths {
+			p := paths[i]
+			if len(p.Ret.Results) != 2 || p.contradictsConstGuard() {
+				continue
+			}
+			if e, ok := p.Ret.Results[1].(*ssa.Const); !ok || !e.IsNil() {
+				continue
+			}
+			for _, sp := range shapesWithHelpers(p, p.Ret.Results[0], 2) {
+				sh := sp.Shape
+				if len(sh) > 0 && sh[0].Kind == bConst && sh[0].C == 0x66 {
+					sh = sh[1:]
+				}
+				if len(sh) < 2 || sh[0].Kind != bConst || (sh[0].C != 0xCD && sh[0].C != 0xEA) {
+					continue
+				}
+				for _, run := range fieldRuns(sh) {
+					call := parseCallOf(run.V)
+					key := fmt.Sprintf("%s|%02X field@%d (%d bits)", fn, sh[0].C, run.Start, run.Width*8)
+					if done[key] {
+						continue
+					}
+					done[key] = true
+					n++
+					if call == nil {
+						c.fail("U8p", key, c.L.Pos(retPos(p.Ret)), "undecided: the field is not the result of a strconv parse")
+						continue
+					}
+					name := calleeName(&call.Call)
+					w := int64(-1)
+					if k, ok := call.Call.Args[2].(*ssa.Const); ok {
+						w = k.Int64()
+						if w == 0 {
+							w = 64
+						}
+					}
+					need := int64(run.Width * 8)
+					good := (name == "strconv.ParseUint" && w >= need) || (name == "strconv.ParseInt" && w > need)
+					c.check(good, "U8p", key, c.L.Pos(instrPos(call)), fmt.Sprintf("the %d-bit field is parsed with %s(…, %d): values from %d to %d are refused although they are legal for this operand", need, name, w, int64(1)<<(need-1), (int64(1)<<need)-1))
+				}
+			}
+		}
+	}
+	c.check(n >= 3, "U8p", "bit-pattern fields found", "", fmt.Sprintf("%d", n))
+}
+
+// parseCallOf: v is (a conversion of) the value result of strconv.ParseInt / ParseUint.
+func parseCallOf(v ssa.Value) *ssa.Call {
+	for i := 0; i < 6; i++ {
+		switch x := v.(type) {
+		case *ssa.Convert:
+			v = x.X
+		case *ssa.Extract:
+			if call, ok := x.Tuple.(*ssa.Call); ok && x.Index == 0 {
+				n := calleeName(&call.Call)
+				if n == "strconv.ParseInt" || n == "strconv.ParseUint" {
+					return call
+				}
+			}
+			return nil
+		default:
+			return nil
+		}
+	}
+	return nil
+}
